@@ -17,11 +17,13 @@ from pathlib import Path
 
 VERIF = Path(__file__).resolve().parents[2]
 COQ = VERIF / "coq"
-BUILD = VERIF / "build"
 EVIDENCE = VERIF / "evidence"
 REPLAYS = EVIDENCE / "replays"
 CORPUS = VERIF / "corpus"
 REPO = Path(os.environ.get("VERIF_REPO", "/repo"))
+# scratch space: one tree per repository under test, so that a run against a scratch worktree
+# (seeded change, refactoring) never shares temporary files with a run against /repo
+BUILD = VERIF / "build" if str(REPO) == "/repo" else VERIF / "build" / ("alt_" + re.sub(r"\W+", "_", str(REPO)).strip("_"))
 
 FORBIDDEN = re.compile(
     r"\b(Admitted|admit|Axiom|Axioms|Parameter|Parameters|Conjecture|Conjectures|"
